@@ -64,6 +64,7 @@ func protoFlag(p string) int {
 }
 
 var forms = []string{"absent", "empty", "name-only", "wrong", "wrong-key", "right-lower", "right-upper", "right-mixed", "other-stream", "override", "override-wrong",
+	"prefix", "prefix", "one-digit", "right-trailing", "percent-encoded", "double-encoded", "override-prefix", "override-other-case",
 	"other-param", "dup-right-right", "dup-wrong-wrong", "dup-right-wrong", "dup-wrong-right", "malformed-none", "malformed-right"}
 
 type AuthCase struct {
@@ -73,9 +74,10 @@ type AuthCase struct {
 	Proto    string `json:"proto"`
 	Form     string `json:"form"`
 	Stream   string `json:"stream"`
-	HlsPath  int    `json:"hls_path"` // 0 /hls/<s>.m3u8   1 /hls/<s>/playlist.m3u8   2 /hls/<s>/record.m3u8
-	Extra    int    `json:"extra"`    // 0 none, 1 unrelated parameter before, 2 after
-	Variant  int    `json:"variant"`  // picks among the malformed shapes / the helper subscriber kind
+	HlsPath  int    `json:"hls_path"`    // 0 /hls/<s>.m3u8   1 /hls/<s>/playlist.m3u8   2 /hls/<s>/record.m3u8
+	Extra    int    `json:"extra"`       // 0 none, 1 unrelated parameter before, 2 after
+	Variant  int    `json:"variant"`     // picks among the malformed shapes / the helper subscriber kind
+	K        int    `json:"k,omitempty"` // near-miss forms: prefix length / digit position selector
 }
 
 var authKeys = []string{"q191201771", "", "KeY9mIxEd", "k e/y?&=#", "0", "ключ"}
@@ -102,6 +104,10 @@ func genAuth(t *rapid.T) AuthCase {
 	c.HlsPath = rapid.IntRange(0, 2).Draw(t, "hlsPath")
 	c.Extra = rapid.IntRange(0, 2).Draw(t, "extra")
 	c.Variant = rapid.IntRange(0, 5).Draw(t, "variant")
+	c.K = rapid.SampledFrom([]int{0, 0, 0, 1, 1, 2, 3, 7, 15, 16, 24, 30}).Draw(t, "k")
+	if (c.Form == "override-prefix" || c.Form == "override-other-case") && c.Override == "" {
+		c.Override = rapid.SampledFrom(authOverrides[2:]).Draw(t, "override3")
+	}
 	return c
 }
 
@@ -139,6 +145,57 @@ func (c AuthCase) query() (q string, values []string, wellFormed bool) {
 		add(c.Override)
 	case "override-wrong":
 		add(c.Override + "0")
+	case "prefix":
+		// a proper prefix of the right value: 31 characters (K=0), 1 (K=1), else K mod 32 (0 = the empty value)
+		add(right[:nearLen(c.K, len(right))])
+	case "one-digit":
+		b := []byte(right)
+		i := c.K % len(b)
+		if b[i] == '0' {
+			b[i] = 'f'
+		} else {
+			b[i] = '0'
+		}
+		add(string(b))
+	case "right-trailing":
+		switch c.Variant % 3 {
+		case 0:
+			add(right + "0")
+		case 1:
+			parts = append(parts, "lal_secret="+right+"%20")
+			values = append(values, right+" ")
+		default:
+			parts = append(parts, "lal_secret="+right+"%00")
+			values = append(values, right+"\x00")
+		}
+	case "percent-encoded":
+		// the same value, every character written as %XX: URL decoding gives the right secret
+		enc := ""
+		for i := 0; i < len(right); i++ {
+			if c.Variant%2 == 0 || i%2 == 0 {
+				enc += fmt.Sprintf("%%%02X", right[i])
+			} else {
+				enc += right[i : i+1]
+			}
+		}
+		parts = append(parts, "lal_secret="+enc)
+		values = append(values, right)
+	case "double-encoded":
+		enc, once := "", ""
+		for i := 0; i < len(right); i++ {
+			enc += fmt.Sprintf("%%25%02X", right[i])
+			once += fmt.Sprintf("%%%02X", right[i])
+		}
+		parts = append(parts, "lal_secret="+enc)
+		values = append(values, once)
+	case "override-prefix":
+		add(c.Override[:nearLen(c.K, len(c.Override))])
+	case "override-other-case":
+		sw := swapCase(c.Override)
+		if sw == c.Override {
+			sw = c.Override + "A"
+		}
+		add(sw)
 	case "other-param":
 		parts = append(parts, "lal_secret_x="+right, "secret="+right)
 	case "dup-right-right":
@@ -189,6 +246,19 @@ func (c AuthCase) query() (q string, values []string, wellFormed bool) {
 		parts = append(parts, "token=1")
 	}
 	return strings.Join(parts, "&"), values, wellFormed
+}
+
+// nearLen picks the length of a proper prefix of an n-character value.
+func nearLen(k, n int) int {
+	switch {
+	case n <= 1:
+		return 0
+	case k == 0:
+		return n - 1
+	case k == 1:
+		return 1
+	}
+	return k % n
 }
 
 func flipLast(h string) string {
@@ -666,6 +736,6 @@ func classifyAuth(c AuthCase) (bool, []string) {
 func TestSimpleAuth(t *testing.T) {
 	pbt.Run(t, pbt.Spec[AuthCase]{
 		ID: "C14", Name: "simple-auth", Gen: genAuth, Run: runAuth, Classify: classifyAuth,
-		Quick: 900, Thorough: 3000,
+		Quick: 700, Thorough: 3000,
 	})
 }
